@@ -4,7 +4,7 @@ import re
 
 from ..repo import AnalysisError
 from ..report import Ob, RuleSpec
-from ..astutil import (src, flat_guards, calls_in, call_name, kwarg, const_value,
+from ..astutil import (src, flat_guards, flatten_guard, calls_in, call_name, kwarg, const_value,
                        iter_own_nodes, ancestors, is_within)
 from ..cfg import cfg_of, Prov
 from .. import variants as V
@@ -476,6 +476,77 @@ def r8_type_variables_in_scope(repo):
     return obs
 
 
+def _all_locals_comp(f, expr, at):
+    """-> (ok, description): expr denotes `[d for d in <namespace declarations> if not isinstance(d, ParameterDeclaration)]`
+    - every declaration registered in the current namespace except the parameters, in registration order."""
+    g = cfg_of(f.node)
+    e, hops = expr, 0
+    while isinstance(e, ast.Name) and hops < 4:
+        defs = g.defs_reaching(e.id, at)
+        if len(defs) != 1 or not isinstance(defs[0][1], ast.AST):
+            return False, "`%s` has %d definitions here" % (e.id, len(defs))
+        at = g.stmt(defs[0][0])
+        e = defs[0][1]
+        hops += 1
+    if not isinstance(e, ast.ListComp) or len(e.generators) != 1:
+        return False, "not a single-generator list comprehension: %s" % src(e)[:70]
+    gen = e.generators[0]
+    if src(e.elt) != src(gen.target):
+        return False, "elements are transformed: %s" % src(e.elt)
+    flt = [" ".join(src(i).split()) for i in gen.ifs]
+    if flt != ["not isinstance(%s, ast.ParameterDeclaration)" % src(gen.target)]:
+        return False, "filter %s keeps or drops other kinds than parameters" % flt
+    it, hops = gen.iter, 0
+    while isinstance(it, ast.Name) and hops < 4:
+        defs = g.defs_reaching(it.id, at)
+        if len(defs) != 1 or not isinstance(defs[0][1], ast.AST):
+            return False, "`%s` has %d definitions here" % (it.id, len(defs))
+        at = g.stmt(defs[0][0])
+        it = defs[0][1]
+        hops += 1
+    if isinstance(it, ast.Call) and src(it.func) == "list" and len(it.args) == 1:
+        it = it.args[0]
+    txt = " ".join(src(it).split())
+    if txt != "self.context.get_declarations(self.namespace, True).values()":
+        return False, "iterates %s" % txt[:70]
+    return True, "all non-parameter declarations of the namespace, in order"
+
+
+def r9_local_declarations(repo):
+    """A function body declares every local that was registered while it was generated, before the expressions that
+    may use it, in registration order (a nested function may use an earlier local): the list of declarations of a body
+    is the namespace's declaration table minus the parameters, unsorted and unfiltered."""
+    obs = []
+    f = _m(repo, "_gen_func_body")
+    # (a) the expression-bodied form is chosen only if there is no local declaration at all
+    ifs = [n for n in iter_own_nodes(f.node) if isinstance(n, ast.If)]
+    ok, why = False, "decision `if not <locals> and ret_type != void` not found"
+    for n in ifs:
+        leaves = flatten_guard(n.test, True)
+        negs = [t for t, p in leaves if not p and isinstance(t, ast.Name)]
+        if len(leaves) >= 2 and negs:
+            ok, why = _all_locals_comp(f, negs[0], n)
+            break
+    obs.append(Ob("C05-R9", "_gen_func_body:expression-body-only-without-locals", _w(f), ok,
+                  "an expression-bodied function cannot declare anything, so it may be chosen only when the namespace "
+                  "holds no declaration besides the parameters: " + why))
+    # (b) the block lists the declarations first
+    blocks = [c for c in calls_in(f.node) if src(c.func) == "ast.Block" and c.args and isinstance(c.args[0], ast.BinOp)]
+    ok = len(blocks) == 1 and src(blocks[0].args[0]).replace(" ", "").startswith("decls+")
+    obs.append(Ob("C05-R9", "_gen_func_body:declarations-before-expressions", _w(f), ok,
+                  "the block must be Block(decls + exprs + [expr]); found %s" % [src(b.args[0]) for b in blocks]))
+    # (c) _gen_side_effects returns every local, in registration order
+    f2 = _m(repo, "_gen_side_effects")
+    rets = [n for n in iter_own_nodes(f2.node) if isinstance(n, ast.Return)]
+    ok, why = False, "expected one `return exprs, decls`"
+    if len(rets) == 1 and isinstance(rets[0].value, ast.Tuple) and len(rets[0].value.elts) == 2:
+        ok, why = _all_locals_comp(f2, rets[0].value.elts[1], rets[0])
+    obs.append(Ob("C05-R9", "_gen_side_effects:returns-every-local-in-registration-order", _w(f2), ok,
+                  "the declarations of a body are the namespace's declarations minus the parameters, in the order they "
+                  "were registered: " + why))
+    return obs
+
+
 def rules():
     return [
         RuleSpec("C05-R1", "only non-final variables / fields are assignment targets", 6, r1_non_final_targets),
@@ -485,6 +556,7 @@ def rules():
         RuleSpec("C05-R5", "provenance of declaration names", 11, r5_identifier_provenance),
         RuleSpec("C05-R6", "identifier pool discipline", 5, r6_pool_discipline),
         RuleSpec("C05-R7", "reserved words of the four target languages vs. the resource files", 5, r7_reserved_data),
+        RuleSpec("C05-R9", "a body declares every registered local, first and in registration order", 3, r9_local_declarations),
         RuleSpec("C05-R8", "generated callees stay in the scope of their type variables; removed type parameters are substituted away", 4, r8_type_variables_in_scope),
     ]
 
